@@ -789,6 +789,9 @@ impl<Writer: Write> Muxer<Writer> {
             self.first_video_pts = Some(pts);
         }
         self.last_video_pts = Some(pts);
+        // Without an explicit DTS the frame is decoded at its PTS: keep the DTS monotonicity
+        // state in step so that a later write_video_with_dts() is judged against this frame.
+        self.last_video_dts = Some(pts);
         self.video_frame_count += 1;
         Ok(())
     }
